@@ -178,9 +178,12 @@ Lemma grid_nonvacuous : forall k kn a hn an fmt sg,
   grid_ok (grid_oci k fmt sg) = true /\ grid_ok (grid_blob k fmt sg) = true.
 Proof.
   intros k kn a hn an fmt sg Hk Hf Hs.
-  pose proof grid_all_true as G. unfold grid_all in G. rewrite forallb_forall in G.
-  specialize (G _ Hk). cbv beta iota in G. rewrite forallb_forall in G. specialize (G _ Hf).
-  rewrite forallb_forall in G. specialize (G _ Hs). apply andb_split in G. exact G.
+  unfold spec_table in Hk. cbn [In] in Hk.
+  repeat (destruct Hk as [Hk|Hk]; [inversion Hk; subst; clear Hk|]); try contradiction;
+    cbn [In grid_formats grid_signers] in Hf, Hs;
+    repeat (destruct Hf as [Hf|Hf]; [subst fmt|]); try contradiction;
+    repeat (destruct Hs as [Hs|Hs]; [subst sg|]); try contradiction;
+    split; vm_compute; reflexivity.
 Qed.
 
 (* a request the property does NOT promise success for (hypothesis of
